@@ -94,6 +94,17 @@ Theorem C16_fresh_new_transport : forall c s e env n ops sid,
 Proof. exact C16_fresh_new_transport_lemma. Qed.
 Print Assumptions C16_fresh_new_transport.
 
+(* executable form, partial: for the three session operations the head of c16_fold accepts the
+   model's own step and the ghost link (specification store keyed by sid = model store keyed by
+   transport, through eio_from_sid) is re-established *)
+Theorem C16_fold_api_partial : forall c s st o r es,
+  Inv s -> link s st ->
+  match o with ApiGetSession _ _ | ApiSaveSession _ _ _ | ApiSessionSet _ _ _ _ => True | _ => False end ->
+  exists st', c16_fold c s st (o :: r) (snd (step c s o) :: es) = c16_fold c (fst (step c s o)) st' r es /\
+              link (fst (step c s o)) st'.
+Proof. exact Sessions.C16_fold_api_partial. Qed.
+Print Assumptions C16_fold_api_partial.
+
 Theorem C16_example :
   let s1 := fst (fst (api_save_session (sid_name 0) y_secret None y_state)) in
   api_get_session (sid_name 0) None s1 = (s1, [], Ok y_secret) /\
